@@ -28,8 +28,9 @@ const VOCAB: [&str; 60] = [
 
 #[derive(Clone, Debug, Serialize, Deserialize)]
 pub enum Insertion {
-    /// foreign element inserted at insertion point number `at` (mod count)
-    Elem { at: u16, local: String, ty: Option<String>, text: String, child: Option<String>, attrs: Vec<(String, String)> },
+    /// foreign element inserted at insertion point number `at` (mod count); `own_ns`: unprefixed, with its
+    /// foreign namespace declared as default namespace on the element itself
+    Elem { at: u16, local: String, ty: Option<String>, text: String, child: Option<String>, attrs: Vec<(String, String)>, #[serde(default)] own_ns: bool },
     /// foreign attribute added to the start tag number `at` (mod count)
     Attr { at: u16, local: String, value: String },
     /// foreign element nested inside leaf element number `at`, after its character data
@@ -136,11 +137,29 @@ fn apply(xml: &str, ins: &[Insertion]) -> String {
     let mut edits: Vec<(usize, String)> = Vec::new();
     for i in ins {
         match i {
-            Insertion::Elem { at, local, ty, text, child, attrs } => {
+            Insertion::Elem { at, local, ty, text, child, attrs, own_ns } => {
                 if sc.points.is_empty() {
                     continue;
                 }
                 let pos = sc.points[*at as usize % sc.points.len()];
+                if *own_ns {
+                    let mut e = format!("<{local} xmlns=\"{URI}/default\"");
+                    if let Some(t) = ty {
+                        e.push_str(&format!(" type=\"{t}\""));
+                    }
+                    for (k, v) in attrs {
+                        e.push_str(&format!(" {k}=\"{}\"", esc(v)));
+                    }
+                    e.push('>');
+                    if let Some(c) = child {
+                        e.push_str(&format!("<{c} type=\"String\">{}</{c}>", esc(text)));
+                    } else {
+                        e.push_str(&esc(text));
+                    }
+                    e.push_str(&format!("</{local}>\n"));
+                    edits.push((pos, e));
+                    continue;
+                }
                 let mut e = format!("<{PREFIX}:{local}");
                 if let Some(t) = ty {
                     e.push_str(&format!(" type=\"{t}\""));
@@ -259,7 +278,7 @@ fn insertion(s: &mut Src) -> Insertion {
             _ => String::new(),
         };
         let child = if ty == Some("Structure") || s.chance(1, 5) { Some(local_name(s)) } else { None };
-        Insertion::Elem { at: s.u16(), local: local_name(s), ty: ty.map(|t| t.to_string()), text, child, attrs }
+        Insertion::Elem { at: s.u16(), local: local_name(s), ty: ty.map(|t| t.to_string()), text, child, attrs, own_ns: s.chance(1, 5) }
     } else {
         Insertion::Attr { at: s.u16(), local: s.pick(&["type", "fileOffset", "recordCount", "length", "minimum", "maximum", "scale", "precision", "note"]).to_string(), value: s.pick(&["Blob", "String", "7", "0", "single", "x"]).to_string() }
     }
@@ -284,7 +303,7 @@ impl Check for C18 {
          and attributes of a registered foreign namespace: local names drawn 4 in 5 from the standard E57 vocabulary (guid, name, points, data3D, \
          vectorChild, pose, colorLimits, ...), arbitrary type attributes (incl. Blob / CompressedVector / Structure with nested children), at any \
          sibling position inside any Structure / Vector outside a prototype, nested inside leaf elements after their character data, plus foreign attributes (vfx:type, vfx:fileOffset, ...) on standard \
-         start tags. Oracle: everything the reader reports about standard content (root fields, every descriptor, raw points, blobs, simple points) \
+         start tags, prefixed or unprefixed with the foreign namespace declared as default namespace on the element itself. Oracle: everything the reader reports about standard content (root fields, every descriptor, raw points, blobs, simple points) \
          is equal with and without the insertions. Second part: prototypes with extension records whose names may equal standard names must be \
          reported as Unknown{prefix,name} with round-tripping values, standard attributes unaffected. Non-trivial: an inserted element whose local \
          name is in the standard vocabulary, or an extension record named like a standard attribute."
@@ -310,9 +329,12 @@ impl Check for C18 {
             Case::Insert { program, insertions } => {
                 for i in insertions {
                     match i {
-                        Insertion::Elem { local, .. } => {
+                        Insertion::Elem { local, own_ns, .. } => {
                             if VOCAB.contains(&local.as_str()) {
                                 v.nt("foreign_element_with_standard_local_name");
+                            }
+                            if *own_ns {
+                                v.nt("unprefixed_foreign_element_with_own_default_namespace");
                             }
                         }
                         Insertion::InLeaf { .. } => v.nt("foreign_element_nested_in_a_leaf"),
@@ -371,13 +393,14 @@ impl Check for C18 {
                     let neutral: Vec<Insertion> = insertions
                         .iter()
                         .map(|i| match i {
-                            Insertion::Elem { at, local, ty, text, child, attrs } => Insertion::Elem {
+                            Insertion::Elem { at, local, ty, text, child, attrs, own_ns } => Insertion::Elem {
                                 at: *at,
                                 local: format!("q_{local}"),
                                 ty: ty.clone(),
                                 text: text.clone(),
                                 child: child.as_ref().map(|c| format!("q_{c}")),
                                 attrs: attrs.clone(),
+                                own_ns: *own_ns,
                             },
                             Insertion::InLeaf { at, local, text } => Insertion::InLeaf { at: *at, local: format!("q_{local}"), text: text.clone() },
                             a => a.clone(),
@@ -411,7 +434,7 @@ impl Check for C18 {
                 }
                 let p = Program {
                     guid: "{c18}".into(),
-                    ops: vec![Op::Ext { prefix: PREFIX.into(), url: URI.into() }, Op::Cloud(prog::CloudSpec { guid: "{c}".into(), proto, n: *n, seed: *seed, nan_ok: true, meta: Default::default(), finalize: true })],
+                    ops: vec![Op::Ext { prefix: PREFIX.into(), url: URI.into() }, Op::Cloud(prog::CloudSpec { guid: "{c}".into(), proto, n: *n, seed: *seed, nan_ok: true, meta: Default::default(), finalize: true, clear_limits: 0 })],
                     end: End::Finalize,
                 };
                 let dev = MemDev::new();
@@ -434,6 +457,15 @@ impl Check for C18 {
                             v.fail(format!("extension records are not reported with their prefix and name: {d}"));
                         } else if let Some(d) = e57ref::scene::diff_points(&exp.clouds[0].points, &got.clouds[0].points, "written", "read") {
                             v.fail(d);
+                        } else {
+                            // standard attributes of the same cloud are unaffected: the simple view must still be the
+                            // documented function of the standard records only
+                            let mut execs = 0;
+                            match guard(|| crate::c05::verify_simple(&h.bytes(), &[], &mut Verdict::new(), &mut execs)) {
+                                Ok(Ok(())) => {}
+                                Ok(Err(e)) => v.fail(format!("extension records disturb the simple view of the standard attributes: {e}")),
+                                Err(pn) => v.fail(format!("simple iterator panicked: {pn}")),
+                            }
                         }
                     }
                 }
